@@ -346,7 +346,7 @@ Local Opaque Model.prog_of.
 Definition with_cur (x : cst) (c : option (api * prog ares)) : cst :=
   {| ovr := ovr x; cur := c; holds := holds x; alive := alive x; eng := eng x; hbs := hbs x; gh := gh x |}.
 
-Lemma finish_props x a v x2 ret : finish x a v = (x2, ret) ->
+Lemma finish_props x a v e x2 ret : finish x a v e = (x2, ret) ->
   eng x2 = eng x /\ alive x2 = alive x /\ gh x2 = gh x /\ ovr x2 = ovr x /\
   (holds x2 = holds x \/ (holds x2 = true /\ is_acquire a = true /\ v = AOk)) /\
   (cur x2 = None \/ (cur x2 = Some (a, prog_of a (ovr x)) /\ is_acquire a = true)).
@@ -363,7 +363,7 @@ Inductive mstep (s : state) (c : nat) (stale : nat) (s' : state) : Prop :=
     (Hx2 : let x1 := {| ovr := ovr x; cur := Some (a, nxt a (k r)); holds := holds x; alive := alive x;
                         eng := (match o, r with OMkdir, ROk => Some (ngen s) | _, _ => eng x end);
                         hbs := hbs x; gh := upd (gh x) o r |} in
-           (x2, ret) = match nxt a (k r) with Ret v => finish x1 a v | _ => (x1, None) end)
+           (x2, ret) = match nxt a (k r) with Ret v => finish x1 a v (epoch s (obj_of s c)) | _ => (x1, None) end)
     (Hfs : fs s' = f')
     (Hbad : bad s' = bad s || ((match o, r with ORemove PDir, ROk => true | _, _ => false end) && live_owner (fs s) (cs s)))
     (Hcs : cs s' = set_nth (cs s) c x2).
@@ -373,8 +373,8 @@ Proof.
   unfold exec. destruct (nth_error (cs s) c) as [x|] eqn:Hx; [|discriminate].
   destruct (cur x) as [[a p]|] eqn:Hcur; [|discriminate]. destruct p as [v|o k|k0]; [discriminate| |discriminate].
   destruct (sem c (ngen s) stale (fs s) o) as [f' r] eqn:Hsem.
-  match goal with |- context [match nxt a (k r) with Ret v => finish ?X a v | Do _ _ => (?Y, None) | Chk _ => _ end] =>
-    destruct (match nxt a (k r) with Ret v => finish X a v | Do _ _ => (Y, None) | Chk _ => (Y, None) end) as [x2 ret] eqn:Hx2 end.
+  match goal with |- context [match nxt a (k r) with Ret v => finish ?X a v ?E | Do _ _ => (?Y, None) | Chk _ => _ end] =>
+    destruct (match nxt a (k r) with Ret v => finish X a v E | Do _ _ => (Y, None) | Chk _ => (Y, None) end) as [x2 ret] eqn:Hx2 end.
   intros H. inversion H; subst; clear H.
   eapply MStep with (x2 := x2) (ret := ret); eauto; simpl.
   all: try (rewrite <- Hx2; destruct o; try reflexivity; destruct r; reflexivity).
@@ -425,6 +425,7 @@ Proof.
   destruct it as [c a|c [k|] st|c|c]; simpl; intros H Hnot.
   - destruct (nth_error (cs s) c) as [x|] eqn:Hx; [|discriminate].
     destruct (cur x) eqn:Hcur; [discriminate|]. destruct (alive x) eqn:Hal; [|discriminate]. simpl in H.
+    destruct (obj_busy s c); [discriminate|].
     destruct (is_acquire a) eqn:Hacq.
     + destruct (holds x) eqn:Hh; [discriminate|]. inversion H; subst; clear H. simpl. pre5 Hsd.
       left. exists a. simpl. repeat split; auto.
@@ -576,10 +577,10 @@ Proof.
     destruct (run s1 r) as [[s2 os2]|] eqn:R; [|discriminate]. inversion H; subst. eauto.
 Qed.
 
-Lemma init_nth ovrs c x : nth_error (cs (init ovrs)) c = Some x -> exists o, x = init_c o.
+Lemma init_nth ovrs objs c x : nth_error (cs (init ovrs objs)) c = Some x -> exists o, x = init_c o.
 Proof. simpl. intros H. apply nth_error_In, in_map_iff in H as (o & <- & _). eauto. Qed.
 
-Lemma Inv_init ovrs : Inv (init ovrs).
+Lemma Inv_init ovrs objs : Inv (init ovrs objs).
 Proof.
   split; [|split].
   - intros _ c x g Hx _ He. apply init_nth in Hx as [o ->]. discriminate.
@@ -587,7 +588,7 @@ Proof.
   - intros c x a p Hx Hc. apply init_nth in Hx as [o ->]. discriminate.
 Qed.
 
-Lemma Inv_run ovrs its s os : run (init ovrs) its = Some (s, os) -> Inv s.
+Lemma Inv_run ovrs objs its s os : run (init ovrs objs) its = Some (s, os) -> Inv s.
 Proof. intros H. eapply (run_inv Inv Inv_exec); [apply Inv_init|exact H]. Qed.
 
 (* at most one live holder, from [excl] *)
@@ -600,8 +601,8 @@ Proof.
   destruct (Hex i x g Hi Hax Ex) as (d & Hd & _ & Ho). destruct (Hex j y g' Hj Hay Ey) as (d' & Hd' & _ & Ho'). congruence.
 Qed.
 
-Lemma mkdir_exclusive_l ovrs its s os :
-  run (init ovrs) its = Some (s, os) -> bad s = false -> live_holders s <= 1.
-Proof. intros H Hb. destruct (Inv_run ovrs its s os H) as (Hex & Hhe & _). apply excl_holders; auto. Qed.
+Lemma mkdir_exclusive_l ovrs objs its s os :
+  run (init ovrs objs) its = Some (s, os) -> bad s = false -> live_holders s <= 1.
+Proof. intros H Hb. destruct (Inv_run ovrs objs its s os H) as (Hex & Hhe & _). apply excl_holders; auto. Qed.
 
 End WithFacts.
